@@ -86,6 +86,10 @@ def run_job(job, trace_on_fail=True):
     r = JobResult(job)
     env = dict(os.environ)
     env['PATH'] = os.path.join(VERIF, 'bin') + ':' + env['PATH']
+    # solver input files of queries that are killed on timeout would otherwise pile up in /tmp
+    tmpd = os.path.join(os.path.dirname(job.path), 'tmp')
+    os.makedirs(tmpd, exist_ok=True)
+    env['TMPDIR'] = tmpd
     cmd = cbmc_cmd(job)
     r.cmd = ' '.join(cmd)
     t0 = time.time()
